@@ -154,7 +154,7 @@ func uniqStrs(xs []string) []string {
 
 func runC09(t *testing.T, s *kit.Session, c c09Case) *kit.Failure {
 	w := c.World
-	m := &kit.Model{W: &w, Opts: kit.ModelOptions{PropagationUnverified: true}}
+	m := &kit.Model{W: &w, Opts: kit.ModelOptions{}}
 	pol := 1
 	jv := m.Judge(c.PushEvt, pol)
 	check := func(b *kit.Built) *kit.Failure {
